@@ -261,3 +261,73 @@ def assembly_insert_links_the_block_at_the_position(k: int, pos: int):
     assert same(nb.parent, a) and same(nb.spatialLocator.grid, a.spatialGrid) and nb.spatialLocator.k == pos
     for b in bs:
         assert same(b.parent, a)
+
+
+# ---------------------------------------------------------------------------------------------- Block overrides
+Block = repo("armi.reactor.blocks:Block")
+
+
+class CompStub(Composite):
+    """a component of a block: a real Composite plus getDimension (contract: the stored value of the dimension)"""
+
+    def getDimension(self, name):
+        return self.dims[name]
+
+
+def mk_comp(name, mult, i, grid):
+    c = new(CompStub, name=name, parent=None, _children=[], spatialGrid=None, cached={}, p=new(PStub), dims={"mult": mult, "op": 1.0})
+    c.spatialLocator = IndexLocation(i, 0, 0, grid)
+    return c
+
+
+@lemma(gen={"k": (0, 2), "which": (0, 2), "mult": (1, 3)})
+def block_add_and_remove_keep_parent_and_child_list_in_step(k: int, which: int, mult: int):
+    """real Block (generic: no pitch-defining component type) with k <= 2 components: Block.add appends and links,
+    refuses a second add; Block.remove(c, recomputeAreaFractions=False) of each possible child detaches exactly it"""
+    k = choose(k, 0, 2)
+    mult = choose(mult, 1, 3)
+    b = new(Block, name="b", parent=None, _children=[], spatialLocator=None, cached={"x": 1.0}, derivedMustUpdate=False,
+            _pitchDefiningComponent=(None, 0.0), p=new(PStub, percentBuByPin=None, type="fuel"))
+    grid = new(GridStub, armiObject=b, isAxialOnly=False)
+    b.spatialGrid = grid
+    cs = []
+    for n in range(k):
+        c = mk_comp("c%d" % n, 1, n, grid)
+        c.parent = b
+        b._children.append(c)
+        cs.append(c)
+    nc = mk_comp("new", mult, 9, grid)
+    b.add(nc)
+    assert same_seq(list(b), cs + [nc]) and same(nc.parent, b), "appended and linked"
+    assert len(b.cached) == 0 and b.derivedMustUpdate, "derived state invalidated"
+    for c in cs:
+        assert same(c.parent, b)
+    allc = cs + [nc]
+    which = choose(which, 0, k)
+    victim = allc[which]
+    b.remove(victim, recomputeAreaFractions=False)
+    assert same_seq(list(b), allc[:which] + allc[which + 1:]), "exactly the removed component is gone, order kept"
+    assert victim.parent is None and victim.spatialLocator.grid is None and victim.spatialLocator.i == (9 if which == k else which), "no parent, detached location"
+    for c in allc:
+        if not same(c, victim):
+            assert same(c.parent, b) and same(c.spatialLocator.grid, grid)
+
+
+# ---------------------------------------------------------------------------------------------- what new() assumes
+class PC0:
+    """stand-in for the parameter collection class the metaclass attaches (ArmiObject.paramCollectionType)"""
+
+
+@lemma
+def constructor_establishes_what_the_lemmas_assume():
+    """the REAL Composite.__init__ / ArmiObject.__init__ leave a parentless, childless object with empty caches,
+    no grid and a detached coordinate location - the attribute values given to new() in the C01 / C16 lemmas.
+    Symbolically the metaclass-provided `paramCollectionType` is replaced by the stand-in class PC0."""
+    if not NATIVE:
+        Composite.paramCollectionType = PC0
+    c = Composite("node")
+    assert c.parent is None and len(c._children) == 0 and len(c) == 0
+    assert len(c.cached) == 0 and c._backupCache is None and c.spatialGrid is None
+    assert c.spatialLocator.grid is None
+    assert c.name == "node" and len(c.childrenByLocator) == 0
+    assert same_seq(c.getChildren(deep=True), [])
